@@ -91,16 +91,22 @@ pub trait SingleTargetRegression<F: Float, T: AsSingleTargets<Elem = F>>:
             .mean()
             .ok_or(Error::NotEnoughSamples)?;
 
+        let mut total_sum_squares = single_target_compare_to
+            .mapv(|x| (x - mean) * (x - mean))
+            .sum();
+        // guard against the division by zero for a constant target only, an unconditional
+        // offset would bias the score of small-scaled targets
+        if total_sum_squares == F::zero() {
+            total_sum_squares = F::cast(1e-10);
+        }
+
         Ok(F::one()
             - self
                 .as_single_targets()
                 .sub(&single_target_compare_to)
                 .mapv_into(|x| x * x)
                 .sum()
-                / (single_target_compare_to
-                    .mapv(|x| (x - mean) * (x - mean))
-                    .sum()
-                    + F::cast(1e-10)))
+                / total_sum_squares)
     }
 
     /// Same as R-Squared but with biased variance
@@ -113,12 +119,15 @@ pub trait SingleTargetRegression<F: Float, T: AsSingleTargets<Elem = F>>:
             .ok_or(Error::NotEnoughSamples)?;
         let mean_error = diff.mean().ok_or(Error::NotEnoughSamples)?;
 
-        Ok(F::one()
-            - (diff.mapv_into(|x| x * x).sum() - mean_error)
-                / (single_target_compare_to
-                    .mapv(|x| (x - mean) * (x - mean))
-                    .sum()
-                    + F::cast(1e-10)))
+        let mut total_sum_squares = single_target_compare_to
+            .mapv(|x| (x - mean) * (x - mean))
+            .sum();
+        // see `r2`
+        if total_sum_squares == F::zero() {
+            total_sum_squares = F::cast(1e-10);
+        }
+
+        Ok(F::one() - (diff.mapv_into(|x| x * x).sum() - mean_error) / total_sum_squares)
     }
 }
 
